@@ -74,35 +74,39 @@ func (ro *Roles) goPaired(r *Report, rule string, fn *ssa.Function, requireWait 
 	w := ro.w
 	fname := FuncName(fn)
 	n := 0
-	allInstrs(fn, func(in ssa.Instruction) {
-		g, ok := in.(*ssa.Go)
-		if !ok {
-			return
-		}
-		n++
-		pos := w.InstrPos(g)
-		cl := funcValue(g.Call.Value)
-		if cl == nil {
-			if sf := g.Call.StaticCallee(); sf != nil {
-				cl = sf
+	// go statements of the function and of the helpers spliced into it
+	for _, host := range append([]*ssa.Function{fn}, ro.helpersOf(fn)...) {
+		host := host
+		allInstrs(host, func(in ssa.Instruction) {
+			g, ok := in.(*ssa.Go)
+			if !ok {
+				return
 			}
-		}
-		key := fname + ": go " + FuncName(cl)
-		// an Add(1) in the same block before the go (or dominating it)
-		added := false
-		allInstrs(fn, func(x ssa.Instruction) {
-			if c, ok := x.(*ssa.Call); ok && isWGMethod(&c.Call, "Add") && instrDominates(c, g) {
-				// no other go between this Add and g consuming it is not checked; Add count equals go count below
-				added = true
+			n++
+			pos := w.InstrPos(g)
+			cl := funcValue(g.Call.Value)
+			if cl == nil {
+				if sf := g.Call.StaticCallee(); sf != nil {
+					cl = sf
+				}
 			}
+			key := fname + ": go " + FuncName(cl)
+			// an Add(1) in the same block before the go (or dominating it)
+			added := false
+			allInstrs(host, func(x ssa.Instruction) {
+				if c, ok := x.(*ssa.Call); ok && isWGMethod(&c.Call, "Add") && instrDominates(c, g) {
+					// no other go between this Add and g consuming it is not checked; Add count equals go count below
+					added = true
+				}
+			})
+			doneOK, how := false, "goroutine body not resolved"
+			if cl != nil && cl.Blocks != nil {
+				doneOK, how = w.wgDoneOnAllPaths(cl)
+			}
+			r.Check(added && doneOK, rule, key, pos, "WaitGroup.Add dominates the go statement; the goroutine runs Done on every path ("+how+")",
+				fmt.Sprintf("goroutine is not WaitGroup-paired (Add before go=%v, Done on all paths=%v: %s): whoever waits for the group returns while this goroutine still runs and mutates state", added, doneOK, how))
 		})
-		doneOK, how := false, "goroutine body not resolved"
-		if cl != nil && cl.Blocks != nil {
-			doneOK, how = w.wgDoneOnAllPaths(cl)
-		}
-		r.Check(added && doneOK, rule, key, pos, "WaitGroup.Add dominates the go statement; the goroutine runs Done on every path ("+how+")",
-			fmt.Sprintf("goroutine is not WaitGroup-paired (Add before go=%v, Done on all paths=%v: %s): whoever waits for the group returns while this goroutine still runs and mutates state", added, doneOK, how))
-	})
+	}
 	if requireWait {
 		// every return of fn is preceded by Wait
 		var waits []ssa.Instruction
